@@ -67,7 +67,7 @@ static int usability_cycle(const pt_t *p, rng_t *rng)
 	cfg_t c = { p->codec, (int)p->m, (uint32_t)p->k, (uint32_t)p->r, (uint32_t)p->L, (uint32_t)p->N1, (uint32_t)p->seed };
 	block_t b; const char *sv = g_prop; g_prop = "";
 	g_session_preprobe = (int)((p->k + p->r + (uint64_t)p->N1) % 3 == 0);   /* a refused parameter set first, on the same instances */
-	int rc = block_build(&b, &c, PAY_RANDOM, rng, 0, -1);
+	int rc = block_build(&b, &c, PAY_RANDOM, rng, rng_u64(rng) & rng_u64(rng), -1);     /* a quarter of the repair slots NULL: the library allocates them */
 	if (rc) { g_session_preprobe = 0; block_free(&b); g_prop = sv; return 1; }
 	uint32_t n = b.n, k = c.k;
 	/* lose about min(r, 10%) symbols, at least one source if possible; RS needs k left */
